@@ -1,3 +1,3 @@
 #include "sim.h"
-extern const engine_t selftest_engine, netsim_engine, strsim_engine, mbufsim_engine, listsim_engine, mapsim_engine, vectorsim_engine, protosim_c05_engine, protosim_c06_engine, envsim_c14_engine, envsim_c15_engine, envsim_c17_engine, confsim_c09_engine;
-const engine_t *engines[] = { &selftest_engine, &netsim_engine, &strsim_engine, &mbufsim_engine, &listsim_engine, &mapsim_engine, &vectorsim_engine, &protosim_c05_engine, &protosim_c06_engine, &envsim_c14_engine, &envsim_c15_engine, &envsim_c17_engine, &confsim_c09_engine, 0 };
+extern const engine_t selftest_engine, netsim_engine, strsim_engine, mbufsim_engine, listsim_engine, mapsim_engine, vectorsim_engine, protosim_c05_engine, protosim_c06_engine, envsim_c14_engine, envsim_c15_engine, envsim_c17_engine, confsim_c09_engine, confsim_c11_engine;
+const engine_t *engines[] = { &selftest_engine, &netsim_engine, &strsim_engine, &mbufsim_engine, &listsim_engine, &mapsim_engine, &vectorsim_engine, &protosim_c05_engine, &protosim_c06_engine, &envsim_c14_engine, &envsim_c15_engine, &envsim_c17_engine, &confsim_c09_engine, &confsim_c11_engine, 0 };
